@@ -104,7 +104,7 @@ func (vc *VC) abstract(note string) {
 func (vc *VC) StrLit(s string) string {
 	if s == "" {
 		vc.ensureStrBase()
-		return "str.empty"
+		return "sempty"
 	}
 	if sym, ok := vc.strLits[s]; ok {
 		return sym
@@ -118,12 +118,12 @@ func (vc *VC) StrLit(s string) string {
 }
 
 func (vc *VC) ensureStrBase() {
-	if vc.declSet["str.empty"] {
+	if vc.declSet["sempty"] {
 		return
 	}
-	vc.Declare("str.empty", nil, SStr)
-	vc.Declare("str.len", []Sort{SStr}, SInt)
-	vc.Declare("str.cat", []Sort{SStr, SStr}, SStr)
+	vc.Declare("sempty", nil, SStr)
+	vc.Declare("slen", []Sort{SStr}, SInt)
+	vc.Declare("scat", []Sort{SStr, SStr}, SStr)
 }
 
 // Prelude returns declarations + definitional facts + string-literal axioms.
@@ -134,18 +134,18 @@ func (vc *VC) Prelude() string {
 		b.WriteString(d)
 		b.WriteString("\n")
 	}
-	if vc.declSet["str.empty"] {
-		b.WriteString("(assert (= (str.len str.empty) 0))\n")
-		b.WriteString("(assert (forall ((s Str)) (! (and (>= (str.len s) 0) (=> (= (str.len s) 0) (= s str.empty))) :pattern ((str.len s)))))\n")
-		b.WriteString("(assert (forall ((a Str) (b Str)) (! (= (str.len (str.cat a b)) (+ (str.len a) (str.len b))) :pattern ((str.cat a b)))))\n")
-		b.WriteString("(assert (forall ((a Str)) (! (= (str.cat a str.empty) a) :pattern ((str.cat a str.empty)))))\n")
-		b.WriteString("(assert (forall ((a Str)) (! (= (str.cat str.empty a) a) :pattern ((str.cat str.empty a)))))\n")
+	if vc.declSet["sempty"] {
+		b.WriteString("(assert (= (slen sempty) 0))\n")
+		b.WriteString("(assert (forall ((s Str)) (! (and (>= (slen s) 0) (=> (= (slen s) 0) (= s sempty))) :pattern ((slen s)))))\n")
+		b.WriteString("(assert (forall ((a Str) (b Str)) (! (= (slen (scat a b)) (+ (slen a) (slen b))) :pattern ((scat a b)))))\n")
+		b.WriteString("(assert (forall ((a Str)) (! (= (scat a sempty) a) :pattern ((scat a sempty)))))\n")
+		b.WriteString("(assert (forall ((a Str)) (! (= (scat sempty a) a) :pattern ((scat sempty a)))))\n")
 	}
 	if len(vc.strOrder) > 0 {
-		syms := []string{"str.empty"}
+		syms := []string{"sempty"}
 		for _, s := range vc.strOrder {
 			syms = append(syms, vc.strLits[s])
-			b.WriteString(fmt.Sprintf("(assert (= (str.len %s) %d)) ; %q\n", vc.strLits[s], len(s), s))
+			b.WriteString(fmt.Sprintf("(assert (= (slen %s) %d)) ; %q\n", vc.strLits[s], len(s), s))
 		}
 		b.WriteString("(assert (distinct " + strings.Join(syms, " ") + "))\n")
 	}
@@ -217,6 +217,13 @@ func (h *Heap) child() *Heap {
 func (h *Heap) Set(name string, s Sort, t string) *Heap {
 	h.vc.noteHeapVar(name, s)
 	c := h.child()
+	if len(t) > 40 {
+		// name the new heap value so that later terms stay small (definitional: the symbol is fresh)
+		sym := fmt.Sprintf("%s@%d", mangle(name), c.id)
+		h.vc.Declare(sym, nil, s)
+		h.vc.Def(Eq(sym, t))
+		t = sym
+	}
 	c.vals[name] = t
 	return c
 }
